@@ -117,9 +117,9 @@ FLOORS = {
     'contract_sent_root_type_random_pipeline:matrix:no-uid': 560, 'contract_sent_root_type_random_pipeline:matrix:row+col-uid': 560,
     'contract_sent_root_type_random_pipeline:matrix:row-uid': 110, 'contract_sent_root_type_random_pipeline:matrix:col-uid': 110,
     'contract_sent_reference_walk': 1800, 'contract_sent_action_result_type': 990, 'sent_random_pipelines': 1400,
-    'randomized_expressions': 280, 'actions_with_random_query': 18, 'sent_relational_rule_checked': 55000,
+    'randomized_expressions': 280, 'actions_with_random_query': 17, 'sent_relational_rule_checked': 55000,
     'sent_random_pipeline_node_kinds': 60, 'sent_relational_rule_classes_checked': 45,
-    'sent_random_pipeline_node:CastMatrixToTable': 80, 'sent_random_pipeline_node:CastTableToMatrix': 30,
+    'sent_random_pipeline_node:CastMatrixToTable': 70, 'sent_random_pipeline_node:CastTableToMatrix': 30,
     'sent_random_pipeline_node:MatrixAggregateColsByKey': 35, 'sent_random_pipeline_node:MatrixAggregateRowsByKey': 40,
     'sent_random_pipeline_node:MatrixAnnotateColsTable': 75, 'sent_random_pipeline_node:MatrixAnnotateRowsTable(product=False)': 140,
     'sent_random_pipeline_node:MatrixAnnotateRowsTable(product=True)': 35, 'sent_random_pipeline_node:MatrixChooseCols': 19,
@@ -143,20 +143,24 @@ FLOORS = {
     'sent_random_pipeline_node:TableAggregateByKey': 50, 'sent_random_pipeline_node:TableDistinct': 25,
     'sent_random_pipeline_node:TableExplode(path_len=1)': 25, 'sent_random_pipeline_node:TableExplode(path_len=2)': 40,
     'sent_random_pipeline_node:TableFilter': 490, 'sent_random_pipeline_node:TableFilterIntervals(keep=False)': 6,
-    'sent_random_pipeline_node:TableFilterIntervals(keep=True)': 9, 'sent_random_pipeline_node:TableHead': 110,
-    'sent_random_pipeline_node:TableIntervalJoin(product=False)': 60, 'sent_random_pipeline_node:TableIntervalJoin(product=True)': 110,
-    'sent_random_pipeline_node:TableJoin(inner,partial_key=False)': 45, 'sent_random_pipeline_node:TableJoin(left,partial_key=False)': 10,
-    'sent_random_pipeline_node:TableJoin(outer,partial_key=False)': 16,
-    'sent_random_pipeline_node:TableJoin(right,partial_key=False)': 13,
-    'sent_random_pipeline_node:TableKeyBy(is_sorted=False,empty=False)': 520,
-    'sent_random_pipeline_node:TableKeyBy(is_sorted=False,empty=True)': 350,
-    'sent_random_pipeline_node:TableKeyBy(is_sorted=True,empty=False)': 100, 'sent_random_pipeline_node:TableKeyByAndAggregate': 160,
-    'sent_random_pipeline_node:TableLeftJoinRightDistinct': 180, 'sent_random_pipeline_node:TableMapGlobals': 170,
-    'sent_random_pipeline_node:TableMapPartitions': 40, 'sent_random_pipeline_node:TableMapRows': 830,
-    'sent_random_pipeline_node:TableOrderBy': 40, 'sent_random_pipeline_node:TableParallelize': 520,
-    'sent_random_pipeline_node:TableRange': 620, 'sent_random_pipeline_node:TableRename': 80,
-    'sent_random_pipeline_node:TableRepartition(strategy=2)': 50, 'sent_random_pipeline_node:TableTail': 25,
-    'sent_random_pipeline_node:TableToTableApply(TableFilterPartitions)': 45, 'sent_random_pipeline_node:TableUnion': 100,
+    'sent_random_pipeline_node:TableFilterIntervals(keep=True)': 2, 'sent_random_pipeline_node:TableHead': 110,
+    'sent_random_pipeline_node:TableIntervalJoin(product=False)': 50, 'sent_random_pipeline_node:TableIntervalJoin(product=True)': 100,
+    'sent_random_pipeline_node:TableJoin(inner,partial_key=False)': 45, 'sent_random_pipeline_node:TableJoin(left,partial_key=False)': 7,
+    'sent_random_pipeline_node:TableJoin(outer,partial_key=False)': 11,
+    'sent_random_pipeline_node:TableJoin(right,partial_key=False)': 11,
+    'sent_random_pipeline_node:TableKeyBy(is_sorted=False,empty=False)': 480,
+    'sent_random_pipeline_node:TableKeyBy(is_sorted=False,empty=True)': 300,
+    'sent_random_pipeline_node:TableKeyBy(is_sorted=True,empty=False)': 95, 'sent_random_pipeline_node:TableKeyByAndAggregate': 160,
+    'sent_random_pipeline_node:TableLeftJoinRightDistinct': 160, 'sent_random_pipeline_node:TableMapGlobals': 150,
+    'sent_random_pipeline_node:TableMapPartitions': 40, 'sent_random_pipeline_node:TableMapRows': 810,
+    'sent_random_pipeline_node:TableOrderBy': 35, 'sent_random_pipeline_node:TableParallelize': 490,
+    'sent_random_pipeline_node:TableRange': 600, 'sent_random_pipeline_node:TableRename': 80,
+    'sent_random_pipeline_node:TableRepartition(strategy=2)': 35, 'sent_random_pipeline_node:TableTail': 25,
+    'sent_random_pipeline_node:TableToTableApply(TableFilterPartitions)': 35, 'sent_random_pipeline_node:TableUnion': 100,
+    # the three rewrite situations repaired by the fix: commits 79ba8d367 / bacf59513 / d23e4a0f0 (validation record G1-G3) must keep arising
+    'entries_tables_under_a_uid_requesting_consumer': 45, 'entries_tables_under_a_random_filter': 35,
+    'multi_way_zip_joins_under_a_uid_requesting_consumer': 25, 'random_group_keys_rebuilt': 18,
+    'sent_random_pipeline_node:TableMultiWayZipJoin': 95,
 }
 
 # MatrixTable.union_cols in the matrix workload.  OFF by default: on the unchanged tree it witnesses a GENUINE disagreement between the
@@ -165,24 +169,21 @@ FLOORS = {
 # default) once the repair / the known finding `relational/MatrixUnionCols-type-differs-from-engine-rule` is registered.
 UNION_COLS_IN_WORKLOAD = os.environ.get('VERIF_C36_UNION_COLS', '1') == '1'
 
-# Table.multi_way_zip_join in the wide table workload.  OFF by default: on the unchanged tree it witnesses a GENUINE disagreement between
-# the reported type and the IR that is sent (TableMultiWayZipJoin._handle_randomness with a uid requested inserts the uid as a VALUE
-# field into every child, so the elements of the `data` array carry `__row_uid` / `__uid`; see the M7 validation record at the bottom).
-# Turn on (VERIF_C36_MULTI_WAY_ZIP_JOIN=1, or flip the default) once the repair / a known finding
-# `sent-ir/...` is registered.
+# Three patterns of the wide workload on which M7 found GENUINE disagreements between the reported type and the IR that is sent (validation
+# record G1-G3 at the bottom).  They were kept out of the default workload until the repairs landed; all three are repaired in /repo now
+# (`fix:` commits d23e4a0f0, bacf59513, 79ba8d367) and ON by default.  The switches remain (=0 turns a pattern off, e.g. to run the monitor
+# against a tree from before the repairs); FLOORS make a run in which a pattern never arises INCONCLUSIVE
+# (multi_way_zip_joins_under_a_uid_requesting_consumer, entries_tables_under_a_uid_requesting_consumer / ..._under_a_random_filter,
+# random_group_keys_rebuilt), so a switched-off run does not claim HELD.
+#   G1  Table.multi_way_zip_join under a consumer that needs row uids: TableMultiWayZipJoin._handle_randomness inserted the uid as a VALUE
+#       field into every child, so the elements of the `data` array carried `__row_uid` / `__uid`.
 MULTI_WAY_ZIP_JOIN_IN_WORKLOAD = os.environ.get('VERIF_C36_MULTI_WAY_ZIP_JOIN', '1') == '1'
-
-# Randomness-consuming table operations on top of MatrixTable.entries() in the wide table workload.  OFF by default for the same reason:
-# MatrixEntriesTable._handle_randomness with a uid requested asks its child for `__col_uid` and never drops it, so
-# `mt.entries().filter(hl.rand_bool(.5))` / `.sample(p)` / `.annotate(r=hl.rand_unif(0, 1))` send a table whose rows carry an extra
-# `__col_uid` field (VERIF_C36_ENTRIES_UNDER_RANDOMNESS=1 to turn on; see the M7 validation record at the bottom).
+#   G2  randomness-consuming table operations on top of MatrixTable.entries(): MatrixEntriesTable._handle_randomness asked its child for
+#       `__col_uid` and never dropped it; `mt.entries().filter(hl.rand_bool(.5))` / `.sample(p)` sent rows with an extra `__col_uid` field
+#       (a TableMapRows consumer re-selects its fields by name and hid it: the workload puts filter / sample DIRECTLY on the view).
 ENTRIES_UNDER_RANDOMNESS_IN_WORKLOAD = os.environ.get('VERIF_C36_ENTRIES_UNDER_RANDOMNESS', '1') == '1'
-
-# Seeded randomness in the KEY expression of Table.group_by(...).aggregate(...) in the wide table workload.  OFF by default, same reason:
-# TableKeyByAndAggregate._handle_randomness assigns the re-bound key expression to `expr` instead of `new_key`
-# (`expr = ir.Let('__rng_state', ..., new_key)`), so the node that is sent aggregates the KEY: its row type is key ++ key (the engine's
-# `keyType ++ expr.typ` rejects the overlap) and every aggregated field the front end reports is gone
-# (VERIF_C36_RANDOM_GROUP_KEY=1 to turn on; see the M7 validation record at the bottom).
+#   G3  seeded randomness in the KEY expression of Table.group_by(...).aggregate(...): TableKeyByAndAggregate._handle_randomness assigned the
+#       re-bound key to `expr` instead of `new_key`, so the node that was sent aggregated the KEY and every aggregated field was gone.
 RANDOM_GROUP_KEY_IN_WORKLOAD = os.environ.get('VERIF_C36_RANDOM_GROUP_KEY', '1') == '1'
 
 # IR classes whose "rule" merely returns a type stored at construction (no derivation from children)
@@ -1539,7 +1540,7 @@ def run(ctx):
     # the wide workload: every op above (with seeded randomness in the generated expressions about half of the time) plus the relational
     # node kinds / optional constructor arguments the plain workload never builds
     TABLE_OPS_WIDE = TABLE_OPS + ['interval_index'] * 5 + ['join', 'index', 'index', 'filter', 'filter', 'group_by', 'tail', 'naive_coalesce', 'sample', 'sample', 'filter_intervals',
-                                  'multi_way_zip_join', 'semi_anti_join', 'map_partitions', 'filter_partitions', 'key_by_sorted', 'key_by_sorted', 'union_rand', 'from_matrix', 'from_matrix', 'from_matrix', 'rename', 'globals', 'explode_nested', 'explode']
+                                  'multi_way_zip_join', 'multi_way_zip_join', 'semi_anti_join', 'map_partitions', 'filter_partitions', 'key_by_sorted', 'key_by_sorted', 'union_rand', 'from_matrix', 'from_matrix', 'from_matrix', 'rename', 'globals', 'explode_nested', 'explode']
 
     def table_case(i, rng, wide):
         phase = 'table-sent' if wide else 'table'
@@ -1678,7 +1679,7 @@ def run(ctx):
                             if ok3:
                                 aggs[a] = x
                                 pick.append(a)
-                        if rng.random() < 0.3 and RANDOM_GROUP_KEY_IN_WORKLOAD:
+                        if rng.random() < 0.5 and RANDOM_GROUP_KEY_IN_WORKLOAD:
                             ke = R(ke)
                     kn = fresh_name(rng, set(pick), 'k')
                     m2.row = {kn: ke.dtype}
@@ -2496,20 +2497,25 @@ def _plain_h(v):
 # Table.index(..., all_matches=True) was generated, and nothing compared the REBUILT tree with the reported type.  Also: the engine typer
 # took the joined field's type from the front end (ir.Join was opaque to the struct spine; now it is read through, as it renders).
 #
-# GENUINE disagreements found on the UNCHANGED tree by M7 (each switched OFF in the default workload so that the unchanged tree stays
-# silent until a repair / known finding is registered; the classifier attributes their witnesses to the keys below):
-#   G1  sent-ir/uid-field-leaks-into-reported-type/TableMultiWayZipJoin            (VERIF_C36_MULTI_WAY_ZIP_JOIN=1)
+# GENUINE disagreements found by M7 on the tree as it was (/repo b3860ceef).  All three are REPAIRED since (`fix:` commits d23e4a0f0 G1,
+# bacf59513 G2, 79ba8d367 G3) and their patterns are in the default workload; the classifier still attributes a witness that has the
+# shape of one of them, in a pipeline that contains the pattern, to the key below (a regression of a repair is named as such).
+# Re-validated after the repairs (quick tier): on a scratch worktree of b3860ceef all three keys fire for seeds 0, 1 and 2
+# (G1 78-166, G2 112-140, G3 38-148 witnesses per run); on HEAD the hand-written witnesses below give exactly the reported type
+# (engine rules over the rebuilt tree: no finding, no difference without uids, only the requested `__row_uid` with one) and seeds 0..4 HOLD.
+#   G1  sent-ir/uid-field-leaks-into-reported-type/TableMultiWayZipJoin            (switch VERIF_C36_MULTI_WAY_ZIP_JOIN)
 #       t = hl.utils.range_table(4).annotate(a=1); z = hl.Table.multi_way_zip_join([t, t], 'data', 'g'); z = z.filter(hl.rand_bool(.5))
 #       reported z.row: struct{idx, data: array<struct{a}>}; TableCollect(z._tir).child / .typ: data: array<struct{a, __uid: tuple(int64,int64)}>.
 #       TableMultiWayZipJoin._handle_randomness(uid) inserts the uid as a VALUE field into every child, and the zip join's `data` is the
 #       array of the children's value structs.  Any consumer that needs row uids (random filter / annotate / sample / keyed aggregation)
 #       above a multi_way_zip_join sends a table whose data elements carry an extra field (and the parent nodes keep the cached type).
-#   G2  sent-ir/uid-field-leaks-into-reported-type/MatrixEntriesTable              (VERIF_C36_ENTRIES_UNDER_RANDOMNESS=1)
-#       mt = hl.utils.range_matrix_table(3, 2); e = mt.entries().filter(hl.rand_bool(.5))        (also .sample(p), .annotate(r=hl.rand_unif(0, 1)))
+#   G2  sent-ir/uid-field-leaks-into-reported-type/MatrixEntriesTable              (switch VERIF_C36_ENTRIES_UNDER_RANDOMNESS)
+#       mt = hl.utils.range_matrix_table(3, 2); e = mt.entries().filter(hl.rand_bool(.5))        (also .sample(p))
 #       reported e.row: struct{row_idx, col_idx}; TableCollect(e._tir).typ rows: struct{row_idx, col_idx, __col_uid: int64}.
 #       MatrixEntriesTable._handle_randomness(uid) asks its child for (temp row uid, `__col_uid`), drops the temp row uid and never drops
-#       `__col_uid`; TableFilter / TableMapRows above only drop the uid they asked for.
-#   G3  sent-ir/TableKeyByAndAggregate-random-key-rewrite-replaces-aggregations    (VERIF_C36_RANDOM_GROUP_KEY=1)
+#       `__col_uid`; the TableFilter above only drops the uid it asked for (a TableMapRows consumer, e.g. annotate, re-selects the
+#       fields it knows by name and hides the left-over field -- which is why only filter / sample DIRECTLY on the view show it).
+#   G3  sent-ir/TableKeyByAndAggregate-random-key-rewrite-replaces-aggregations    (switch VERIF_C36_RANDOM_GROUP_KEY)
 #       t = hl.utils.range_table(4); g = t.group_by(k=hl.rand_bool(.5)).aggregate(n=hl.agg.count())
 #       reported g.row: struct{k: bool, n: int64}; the node sent is TableKeyByAndAggregate(child, expr = Let(__rng_state, ..., NEW_KEY), new_key):
 #       `_handle_randomness` ends with `expr = ir.Let('__rng_state', ..., new_key)` (should assign `new_key`), so the aggregations are
